@@ -169,7 +169,7 @@ def main():
         "engines": [{
             "name": "cjverif", "path": "/verif/cmd/cjverif",
             "serves_properties": [c["property_id"] for c in checks],
-            "kind_free_text": "repository-specific static analyser over go/packages + go/ssa (guard dominance/reachability, locksets, interprocedural taint, error classes, draw sequences, bounds, predicate tables, constant tables, cross-language rule extraction); engine fixtures run before every check; short-circuit threading, predicate summaries and phase-split queries see through condition forms and helpers; overlay-based mutant corpus, ~520 rename controls, 48 behaviour-preserving refactoring controls and the replay of 160 independently seeded changes keep it honest",
+            "kind_free_text": "repository-specific static analyser over go/packages + go/ssa (guard dominance/reachability, locksets, interprocedural taint, error classes, draw sequences, bounds, predicate tables, constant tables, cross-language rule extraction); engine fixtures run before every check; short-circuit threading, predicate summaries and phase-split queries see through condition forms and helpers; overlay-based mutant corpus, ~520 rename controls, 72 behaviour-preserving refactoring controls and the replay of 160 independently seeded changes keep it honest",
         }],
         "checks": checks,
         "not_applicable": na,
